@@ -255,6 +255,15 @@ Error RACFGBuilder::on_instruction(InstNode* inst, InstControlFlow& cf, RAInstBu
               }
             }
 
+            // Do not use RegMem flag if the instruction writes the register and zero extends it beyond the size of the
+            // memory operand - the memory form would leave the rest of the virtual register's home slot unchanged. For
+            // example `add eax, ecx` clears the high 32 bits of a 64-bit virtual register, `add dword [home], ecx` doesn't.
+            if (Support::test(flags, RATiedFlags::kWrite) && Support::test(flags, RATiedFlags::kUseRM | RATiedFlags::kOutRM)) {
+              if (work_reg->reg_byte_mask() & op_rw_info.extend_byte_mask()) {
+                flags &= ~(RATiedFlags::kUseRM | RATiedFlags::kOutRM);
+              }
+            }
+
             RegGroup group = work_reg->group();
             RegMask use_regs = _pass._available_regs[group] & allowed_regs;
             RegMask out_regs = use_regs;
